@@ -109,6 +109,9 @@ func clashPair(r *wvlib.Rng, shape string) (*wvlib.Build, *wvlib.Build) {
 	case "file->dir-nested-own-rename": // f becomes a directory and lives on two levels down inside it
 		old.Entries = []wvlib.BEntry{f("f", x), f("keep.bin", z)}
 		nw.Entries = []wvlib.BEntry{f("f/a/b/inner.bin", x), f("f/a/copy.bin", x), f("keep.bin", z)}
+	case "aside-name-lookalike": // a build that holds a file NAMED like the temporary name a source steps aside to
+		old.Entries = []wvlib.BEntry{f("f", x), f("f.butler-aside-1", z), f("g", y), f("g.butler-aside-2", r.Bytes(40))}
+		nw.Entries = []wvlib.BEntry{f("f/inner.bin", x), f("f.butler-aside-1", z), f("g/deep/inner.bin", y), f("g/copy.bin", y), f("g.butler-aside-2", old.Entries[3].Data)}
 	case "dir->symlink-plain":
 		old.Entries = []wvlib.BEntry{f("d/x.bin", x), f("keep.bin", z)}
 		nw.Entries = []wvlib.BEntry{{Path: "d", Kind: 'l', Dest: "elsewhere"}, f("keep.bin", z)}
@@ -122,7 +125,7 @@ func clashPair(r *wvlib.Rng, shape string) (*wvlib.Build, *wvlib.Build) {
 var clashShapes = []string{"dir->file-new", "dir->file-renamed", "file->dir-containing-own-rename", "dir->symlink-child-renamed-out",
 	"dir->symlink-into-kept-dir", "symlink->file-copy-of-its-target", "emptydir->file-copy", "file->symlink-file-renamed",
 	"dir->file-renamed-nested", "dir->symlink-into-kept-dir-nested", "file->dir-nested-own-rename"}
-var benignKindShapes = []string{"symlink->file", "file->symlink", "symlink->dir", "emptydir->file", "file->dir-not-source", "dir->symlink-plain", "temp-name-lookalike", "temp-name-lookalike-2"}
+var benignKindShapes = []string{"symlink->file", "file->symlink", "symlink->dir", "emptydir->file", "file->dir-not-source", "dir->symlink-plain", "temp-name-lookalike", "temp-name-lookalike-2", "aside-name-lookalike"}
 
 func writeBuildListing(path string, c *tlc.Container, b *wvlib.Build) {
 	writeSignedListing(path, c, b, nil)
@@ -274,7 +277,7 @@ func runC02(env *Env) {
 	var cases []*C02Case
 	for _, sh := range append(append([]string{}, clashShapes...), benignKindShapes...) {
 		rp := 2
-		if strings.HasPrefix(sh, "temp-name") || strings.HasSuffix(sh, "-nested") || sh == "dir->file-renamed" {
+		if strings.HasPrefix(sh, "temp-name") || strings.HasPrefix(sh, "aside-name") || strings.HasSuffix(sh, "-nested") || sh == "dir->file-renamed" {
 			rp = 10 // which output gets which number / which group is visited first depends on the map order
 		}
 		cases = append(cases, &C02Case{PairCase: PairCase{Seed: rng.Next()}, Clash: sh, Repeats: rp})
